@@ -27,7 +27,48 @@ def decl? : Sexp → Option Decl
     some ⟨← nat? p, ← nats cs, ← nats pres, ← gos.mapM pair?⟩
   | _ => none
 
+def nabe? : Sexp → Option Nabe
+  | .atom "predo" => some .predo | .atom "remark" => some .remark | .atom "rendo" => some .rendo
+  | .atom "enmark" => some .enmark | .atom "endo" => some .endo | .atom "redo" => some .redo
+  | .atom "afdo" => some .afdo | .atom "godo" => some .godo | .atom "exdo" => some .exdo
+  | .atom "rexdo" => some .rexdo | _ => none
+
+def raise? : Sexp → Option ((Event × Nat) × String)
+  | .list [b, nb, k, t, .atom nm] => do some ((⟨← nat? b, ← nabe? nb, ← nat? k⟩, ← nat? t), nm)
+  | _ => none
+
+def ender? : Sexp → Option Event
+  | .list [b, nb, k] => do some ⟨← nat? b, ← nabe? nb, ← nat? k⟩
+  | _ => none
+
+def outEventsX (r : RecX) : List Sexp :=
+  (List.range r.events.length).zip r.events |>.map fun (i, e) =>
+    let seen := if i < r.switch then r.pre else r.post
+    .list [ofNat e.box, sym (nabeName e.nabe), ofNat e.idx, ofOpt ofNat seen,
+           if r.tick = 0 then sym "-" else ofOpt ofNat seen]
+
+def outRecX (r : RecX) (wasCut : Bool) : Sexp :=
+  .list [ofNat r.tick, ofOpt ofNat (r.after wasCut), .list (outEventsX r)]
+
+def outFinalX (names : List ((Event × Nat) × String)) : FinalX → Sexp
+  | .live => .list [sym "live"]
+  | .ret b => .list [sym "ret", ofBool b]
+  | .typeError => .list [sym "exc", sym "TypeError"]
+  | .indexError => .list [sym "exc", sym "IndexError"]
+  | .raised e t => .list [sym "exc", sym ((names.find? (fun p => p.1 == (e, t))).map (·.2) |>.getD "unknown")]
+
+def outRunX (names : List ((Event × Nat) × String)) (r : List RecX × FinalX) : List Sexp :=
+  let cut := match r.2 with | .raised _ _ => true | _ => false
+  let n := r.1.length
+  ((List.range n).zip r.1 |>.map fun (i, x) => outRecX x (cut && i + 1 == n)) ++ [outFinalX names r.2]
+
 def handle : Sexp → Sexp
+  | .list [.atom "run", .list bs, first, ticks, endat, .list raises, .list enders, rerun] =>
+    match bs.mapM decl?, nat? first, nat? ticks, nat? endat, raises.mapM raise?, enders.mapM ender?, nat? rerun with
+    | some ds, some first, some ticks, some endat, some rs, some es, some rerun =>
+      let one := outRunX rs (runX (mkForest ds) first ticks endat es (rs.map (·.1)))
+      .list (if rerun = 0 then one else one ++ one)
+    | _, _, _, _, _, _, _ => sym "bad-request"
   | .list [.atom "run", .list bs, first, ticks, endat] =>
     match bs.mapM decl?, nat? first, nat? ticks, nat? endat with
     | some ds, some first, some ticks, some endat =>
